@@ -37,6 +37,8 @@ THEOREMS = [
     'Nb.C03.reshape_getitem_eq_reshaped_array',
     'Nb.C03.reshape_fails_iff',
     'Nb.C03.frozen_params',
+    'Nb.C03.frozen_reads',
+    'Nb.C03.frozen_alias_counterexample',
     'Nb.C03.afni_scaling_per_subbrick',
     'Nb.C03.afni_scale_alongside',
     'Nb.C03.afni_zero_factor_means_one',
@@ -52,6 +54,8 @@ THEOREMS = [
     'Nb.C03.ecat_frames',
     'Nb.C03.ecat_frames_orig_counterexample',
     'Nb.C03.ecat_frames_orig_reversed_counterexample',
+    'Nb.C03.ecat_frame_order_sorted',
+    'Nb.C03.ecat_frames_by_row',
 ]
 ASSUMPTIONS = [
     'hand-written Lean model of the proxy logic (Model/C03.lean on top of Model/C06.lean), tied to the code by the '
@@ -214,6 +218,24 @@ end Nb.Gen.C03
     write_if_changed(GEN_PARREC, out)
     return ['Generated.C03Parrec.parrecFallback', 'Generated.C03Parrec.parrecFastOffset/Order']
 
+
+PENDING_FINDINGS = [
+    {'property': 'C03', 'signature': 'afni:reshape:raise', 'status': 'open',
+     'what': 'AFNIArrayProxy.reshape() raises TypeError (ArrayProxy.reshape re-instantiates self.__class__ with the '
+             'keywords file_like=/spec=/order=, which AFNIArrayProxy.__init__(file_like, header, *, mmap, keep_file_open) '
+             'does not accept): the AFNI proxy inherits a public reshape() that cannot work',
+     'input': {'op': 'reshape', 'build': {'fmt': 'afni', 'shape': [2, 1, 1, 2], 'dt': 'i2', 'facs': [0.5, 2.25],
+                                          'bo': 'LSB_FIRST', 'comp': 'plain', 'seed': 5},
+               'cfg': {'mmap': True, 'kfo': False, 'src': 'path', 'igzip': True}, 'idx': [], 'pre': None,
+               'newshape': [2, 2], 'stream': 'afni-reshape'}},
+    {'property': 'C03', 'signature': 'afni:copy:raise', 'status': 'open',
+     'what': 'AFNIArrayProxy.copy() raises TypeError (ArrayProxy.copy passes order= and a spec tuple to '
+             'AFNIArrayProxy.__init__, which accepts neither)',
+     'input': {'op': 'copy', 'build': {'fmt': 'afni', 'shape': [2, 1, 1, 2], 'dt': 'i2', 'facs': [0.5, 2.25],
+                                       'bo': 'LSB_FIRST', 'comp': 'plain', 'seed': 5},
+               'cfg': {'mmap': True, 'kfo': False, 'src': 'path', 'igzip': True}, 'idx': [], 'pre': None,
+               'stream': 'afni-copy'}},
+]
 
 logging.getLogger('nibabel.global').setLevel(logging.CRITICAL)   # header-check chatter on odd offsets
 
@@ -809,7 +831,26 @@ def build_ecat(b):
             raw = raw[:, ::-1, ::-1]
         sf = struct.unpack('>f', blob[start - BLOCK + 26 * 2 + 0:start - BLOCK + 26 * 2 + 4])[0] if False else scales[fno]
         full[..., fno] = (raw.astype(np.float64) * float(calib)) * sf
-    qarr = np.arange(V * nfr).reshape(shape4, order='F')
+    # element numbers BY FILE ROW (0-based matrix-list row of the frame's volume), scale slot = that row
+    qarr = np.empty(shape4, dtype=np.int64)
+    slotarr = np.empty(shape4, dtype=np.int64)
+    row_of = {fno: r - 1 for fno, r in enumerate(rows)}
+    for fno in range(nfr):
+        qarr[..., fno] = np.arange(V).reshape(shape3, order='F') + V * row_of[fno]
+        slotarr[..., fno] = row_of[fno]
+    alts = []
+    for r0 in range(nfr):       # the whole image as if every frame had been scaled with the factor stored in row r0
+        alt = np.empty(shape4)
+        for fno, r in enumerate(rows):
+            start = int(ml[r, 1]) * BLOCK
+            raw = np.frombuffer(blob, dtype='>i2', count=V, offset=start).reshape(shape3, order='F')
+            if orient in (1, 3, 5, 7):
+                raw = raw[::-1, ::-1, ::-1]
+            elif orient in (0, 2, 4, 6):
+                raw = raw[:, ::-1, ::-1]
+            alt[..., fno] = (raw.astype(np.float64) * float(calib)) * scales[perm[r0]]
+        alts.append((r0, alt))
+    ids = [int(ml[r, 0]) for r in range(1, 1 + nfr)]
 
     def opener(cfg):
         with warnings.catch_warnings():
@@ -825,7 +866,9 @@ def build_ecat(b):
                 img = ecat.EcatImage.from_file_map(fm)
         assert isinstance(img.dataobj, ecat.EcatImageArrayProxy)
         return img.dataobj
-    return Built('ecat', shape4, 'F', full, qarr, None, [(None, full)], opener, None, {'image': path})
+    bt = Built('ecat', shape4, 'F', full, qarr, slotarr, alts, opener, None, {'image': path})
+    bt.ids = ids
+    return bt
 
 
 # ---------------------------------------------------------------- PAR/REC
@@ -1132,6 +1175,8 @@ def model_line(d):
     if fmt in GENERIC:
         isz = DT[b['dt']].itemsize
         off = get_built(b).off
+        if op == 'frzr':
+            return f'C03 frzr {b.get("order", "F")} {thr} {isz} {off} {shp(b["shape"])} {idx} ' + ' '.join(d['ops'])
         if fmt == 'cifti2':
             return f'C03 rs F F {thr} {isz} {off} 1,1,1,1,{shp(b["shape"])} {shp(b["shape"])} {idx}'
         if op == 'reshape':
@@ -1140,12 +1185,16 @@ def model_line(d):
             return f'C03 rs {o} {o} {thr} {isz} {off} {shp(b["shape"])} {ns} {idx}'
         return f'C03 px {b.get("order", "F")} {thr} {isz} {off} {shp(b["shape"])} {idx}'
     if fmt == 'afni':
+        if op in ('reshape', 'copy'):
+            return None           # oracle only (open finding: AFNIArrayProxy cannot be reshaped / copied)
         isz = {'u1': 1, 'i2': 2, 'f4': 4}[b['dt']]
         facs = b.get('facs')
         ft = '-' if facs is None else ''.join('z' if v == 0 else 'n' for v in facs)
         return f'C03 afni {thr} {isz} {shp(b["shape"])} {ft} {idx}'
     if fmt == 'ecat':
-        return f'C03 ecat cur {shp(b["shape3"])} {b["nframes"]} {idx}'
+        if op == 'arr':
+            return f'C03 ecatrarr {shp(b["shape3"])} {shp(get_built(b).ids)}'
+        return f'C03 ecatr {shp(b["shape3"])} {shp(get_built(b).ids)} {idx}'
     if fmt == 'parrec':
         bt = get_built(b)
         return f'C03 par {thr} 2 {shp(bt.shape)} {bt.S} {shp(bt.indices)} {idx}'
@@ -1182,9 +1231,9 @@ def case_from_data(d):
         line = f'C03 frz F {shp} {h["isz"]} {h["off"]} {_fmt_o(h["slope"])} {_fmt_o(h["inter"])} {ops}'.rstrip()
         return Case(line, d, ('frz', shp, ops), 'frozen')
     idx = idx_of(d)
-    trivial = all(isinstance(i, slice) and i == slice(None) for i in idx)
+    trivial = all(isinstance(i, slice) and i == slice(None) for i in idx) and d.get('op') != 'arr'
     key = None if trivial else (repr(sorted(d['build'].items())), repr(sorted(d['cfg'].items())), fmt_idx(idx),
-                                d.get('op'), repr(d.get('newshape')))
+                                d.get('op'), repr(d.get('newshape')), repr(d.get('ops')), d.get('target'))
     try:
         line = model_line(d)
     except Exception:
@@ -1209,7 +1258,7 @@ def canon(bt, res):
             qs.append(str(v[0]))
             slots.append(v[1])
     s = f'ok [{",".join(map(str, res.shape))}] [{",".join(qs)}]'
-    if bt.fmt in ('afni', 'parrec', 'minc1', 'minc2'):
+    if bt.fmt in ('afni', 'parrec', 'minc1', 'minc2', 'ecat'):
         if all(x is None for x in slots):
             s += ' [0' + ',0' * (len(slots) - 1) + ']' if (bt.fmt.startswith('minc') and slots) else ' []'
         else:
@@ -1249,7 +1298,10 @@ def impl(case):
     with warnings.catch_warnings():
         warnings.simplefilter('ignore')
         with IGzipFlag(cfg.get('igzip', True)):
-            proxy = bt.opener(cfg)
+            if d.get('op') == 'frzr':
+                proxy, cells, keep = open_frozen(bt, d)
+            else:
+                proxy = bt.opener(cfg)
             if d.get('op') == 'copy':
                 proxy = proxy.copy()
             if d.get('op') == 'reshape':
@@ -1266,8 +1318,18 @@ def impl(case):
             if cfg.get('repos') is not None and getattr(proxy, 'file_like', None) is not None \
                     and hasattr(proxy.file_like, 'seek'):
                 proxy.file_like.seek(cfg['repos'])
+            if d.get('op') == 'frzr':
+                # a read, then operations on the header OBJECTS (cell 0: the object the proxy was built from / the
+                # image's header; cell 1: an equal copy), then the read that is reported
+                try:
+                    case.extra['res0'] = np.array(proxy[idx])
+                except (IndexError, ValueError):
+                    case.extra['res0'] = None
+                for tok in d['ops']:
+                    c, rest = tok.split(':', 1)
+                    apply_hdr_op(cells[int(c)], rest)
             try:
-                res = proxy[idx]
+                res = np.asarray(proxy) if d.get('op') == 'arr' else proxy[idx]
             except (IndexError, ValueError) as e:
                 case.extra['err'] = e
                 return 'ERR'
@@ -1286,6 +1348,40 @@ def impl(case):
                     case.extra['full_err'] = e
             release(proxy)
     return canon(bt, res)
+
+
+ISZ2DT = {1: np.uint8, 2: np.int16, 4: np.int32, 8: np.float64}
+
+
+def apply_hdr_op(hdr, tok):
+    k, *v = tok.split(':')
+    if k == 'shape':
+        hdr.set_data_shape([int(x) for x in v[0].split(',')])
+    elif k == 'isz':
+        hdr.set_data_dtype(ISZ2DT[int(v[0])])
+    elif k == 'off':
+        hdr.set_data_offset(int(v[0]))
+    elif k == 'si':
+        s, i = (None if x == '_' else int(x) for x in v)
+        hdr.set_slope_inter(s, (i or 0) if s is not None else None)
+    else:
+        raise ValueError(tok)
+
+
+def open_frozen(bt, d):
+    """(proxy, [header object 0, header object 1], keep-alive).  target 'proxy-hdr': the proxy is constructed here from a
+    header object that the case then edits; 'img-hdr': the image is loaded by nibabel and the IMAGE's header is edited."""
+    import nibabel as nib
+    from nibabel.arrayproxy import ArrayProxy
+    cfg = d['cfg']
+    klass = {'nifti1': nib.Nifti1Image, 'nifti2': nib.Nifti2Image}[bt.fmt]
+    path = bt.files['image']
+    if d.get('target') == 'img-hdr':
+        img = klass.from_filename(path, mmap=cfg['mmap'], keep_file_open=cfg['kfo'])
+        return img.dataobj, [img.header, img.header.copy()], img
+    hdr = klass.header_class.from_fileobj(io.BytesIO(read_plain(path)))
+    proxy = ArrayProxy(path, hdr, mmap=cfg['mmap'], keep_file_open=cfg['kfo'])
+    return proxy, [hdr, hdr.copy()], None
 
 
 def impl_frozen(d):
@@ -1339,7 +1435,8 @@ def same_bits(a, b):
 def describe(d):
     return f'{d["build"]["fmt"]} build={d["build"]} cfg={d["cfg"]} idx={idx_of(d)}' + \
         (f' newshape={d["newshape"]}' if d.get('op') == 'reshape' else '') + \
-        (f' pre={idx_of(d, "pre")}' if d.get('pre') is not None else '')
+        (f' pre={idx_of(d, "pre")}' if d.get('pre') is not None else '') + \
+        (f' header-ops={d["ops"]} target={d.get("target")}' if d.get('op') == 'frzr' else '')
 
 
 def oracle(case, out):
@@ -1391,6 +1488,12 @@ def oracle(case, out):
     bad = same_bits(ex['res'], full[idx])
     if bad:
         return f'proxy[idx] != np.asarray(proxy)[idx]: {bad}: {describe(d)}'
+    if d.get('op') == 'frzr':
+        if ex.get('res0') is None:
+            return f'the read before the header operations raised, the read after them did not: {describe(d)}'
+        bad = same_bits(ex['res'], ex['res0'])
+        if bad:
+            return f'proxy[idx] changed after operations {d["ops"]} on header objects: {bad}: {describe(d)}'
     if 'unscaled_shape' in ex and tuple(ex['unscaled_shape']) != tuple(expected_full.shape):
         return f'get_unscaled() shape {ex["unscaled_shape"]} != {expected_full.shape}: {describe(d)}'
     return None
@@ -1415,6 +1518,9 @@ def shrink_candidates(case):
         return
     if d.get('pre') is not None:
         yield case_from_data(dict(d, pre=None))
+    if d.get('op') == 'frzr':
+        for i in range(len(d['ops'])):
+            yield case_from_data(dict(d, ops=d['ops'][:i] + d['ops'][i + 1:]))
     cfg = d['cfg']
     simple = {'mmap': True, 'kfo': False, 'src': 'path', 'igzip': True}
     if any(cfg.get(k) != v for k, v in simple.items()) or cfg.get('pos') or cfg.get('repos') is not None:
@@ -1557,6 +1663,16 @@ def gen_afni(rng, out, nbuilds, nidx):
             cfg = rand_cfg(rng, 'afni', b['comp'])
             out.append(mk_case(b, cfg, rand_index(rng, shape, rng.random() < 0.08), 'afni',
                                pre=rand_index(rng, shape) if rng.random() < 0.2 else None))
+        if nv > 1 and facs is not None and any(facs):
+            # >= 2 sub-bricks with non-zero factors x new axes AFTER the sub-brick axis (and elsewhere)
+            for _ in range(max(2, nidx // 4)):
+                items = [rand_item(rng, n) for n in shape]
+                if rng.random() < 0.4:
+                    items = [Ellipsis, items[3]]
+                items = items + [None] * rng.choice([1, 1, 2])
+                if rng.random() < 0.3:
+                    items.insert(rng.randrange(0, len(items)), None)
+                out.append(mk_case(b, rand_cfg(rng, 'afni', b['comp']), tuple(items), 'afni-trailing-newaxis'))
 
 
 def frame_axis_items(n):
@@ -1583,6 +1699,26 @@ def gen_ecat(rng, out, nbuilds, nidx, exhaustive):
             cfg = {'mmap': True, 'kfo': False, 'igzip': True, 'src': rng.choice(['path', 'path', 'file', 'bytesio']),
                    'pos': rng.choice([0, 3, 700])}
             out.append(mk_case(b, cfg, rand_index(rng, shape, rng.random() < 0.08), 'ecat'))
+    # matrix list NOT in ascending id order x an INTEGER on the frame axis (any sign), new axes anywhere; whole array
+    for b in builds:
+        nfr = b['nframes']
+        cfg = {'mmap': True, 'kfo': False, 'igzip': True, 'src': 'path', 'pos': 0}
+        out.append(mk_case(b, cfg, (), 'ecat-whole', op='arr'))
+        if nfr < 2:
+            continue
+        perm = list(b['perm'])
+        while perm == sorted(perm):
+            rng.shuffle(perm)
+        b2 = dict(b, perm=perm)
+        shape = tuple(b2['shape3']) + (nfr,)
+        out.append(mk_case(b2, cfg, (), 'ecat-whole', op='arr'))
+        for _ in range(max(2, nidx // 4)):
+            lead = [rand_item(rng, n) for n in shape[:3]]
+            f = rng.randrange(-nfr, nfr)
+            items = (lead + [f]) if rng.random() < 0.6 else [Ellipsis, f]
+            for _ in range(rng.choice([0, 0, 1, 2])):
+                items.insert(rng.randrange(0, len(items) + 1), None)
+            out.append(mk_case(b2, cfg, tuple(items), 'ecat-unordered-int'))
     if exhaustive:
         b = {'fmt': 'ecat', 'shape3': (2, 3, 2), 'nframes': 3, 'perm': [0, 1, 2], 'orient': 1, 'seed': 11}
         cfg = {'mmap': True, 'kfo': False, 'igzip': True, 'src': 'path', 'pos': 0}
@@ -1739,6 +1875,48 @@ def gen_frozen(rng, out, n):
         out.append(case_from_data({'op': 'frz', 'hdr': h, 'ops': ops}))
 
 
+def gen_frozen_reads(rng, out, nbuilds, nidx):
+    """header OBJECT edited between two reads of the same proxy (the object the proxy was built from, or the header of
+    the loaded image; occasionally an unrelated equal copy)"""
+    for _ in range(nbuilds):
+        fmt = rng.choice(['nifti1', 'nifti1', 'nifti2'])
+        shape = rand_shape(rng, rng.choice([2, 3, 3, 4]))
+        b = {'fmt': fmt, 'seed': rng.randrange(10 ** 6), 'comp': 'plain', 'shape': shape,
+             'dt': rng.choice(['u1', 'i2', 'i2', 'i4', 'f4']), 'slope': rng.choice([None, 2.0, 0.5, 1.7]),
+             'inter': rng.choice([0.0, 1.0, -7.25])}
+        if b['dt'] == 'u1' and int(np.prod(shape)) > 200:
+            b['dt'] = 'i2'
+        if b['slope'] is None:
+            b['inter'] = None
+        for _ in range(nidx):
+            ops = []
+            for _ in range(rng.randrange(1, 5)):
+                cell = rng.choice([0, 0, 0, 1])
+                k = rng.choice(['shape', 'shape', 'isz', 'off', 'si', 'si'])
+                if k == 'shape':
+                    r = rng.random()
+                    if r < 0.4:          # same number of elements, other shape
+                        ns = [abs(v) for v in rand_factor_shape(rng, int(np.prod(shape)))]
+                    elif r < 0.6:        # same shape, axes permuted
+                        ns = list(shape)
+                        rng.shuffle(ns)
+                    else:
+                        ns = list(rand_shape(rng, rng.choice([2, 3, 4])))
+                    ops.append('%d:shape:%s' % (cell, ','.join(map(str, ns))))
+                elif k == 'isz':
+                    ops.append('%d:isz:%d' % (cell, rng.choice([1, 2, 4, 8])))
+                elif k == 'off':
+                    ops.append('%d:off:%d' % (cell, rng.choice([352, 360, 544, 512, 1024])))
+                else:
+                    sl = rng.choice([None, 2, 5, -3, 1])
+                    it = rng.choice([None, 0, 1, 9]) if sl is not None else None
+                    ops.append('%d:si:%s:%s' % (cell, _fmt_o(sl), _fmt_o(it)))
+            cfg = {'mmap': rng.choice([True, False, 'c', 'r']), 'kfo': rng.choice([True, False]), 'igzip': True,
+                   'src': 'path'}
+            out.append(mk_case(b, cfg, rand_index(rng, shape), 'frozen-read', op='frzr',
+                               extra={'ops': ops, 'target': rng.choice(['proxy-hdr', 'proxy-hdr', 'img-hdr'])}))
+
+
 def cases(rng, tier):
     out = []
     k = {'quick': 4, 'thorough': 100, 'search': 4}[tier]
@@ -1749,4 +1927,5 @@ def cases(rng, tier):
     gen_parrec_opts(rng, out, 10 * k, 12)
     gen_minc(rng, out, 10 * k, 14)
     gen_frozen(rng, out, 40 * k)
+    gen_frozen_reads(rng, out, 8 * k, 10)
     return out
